@@ -129,7 +129,7 @@ AllowedTrim(pre, post, map, size) ==   \* size = -1: any length
   /\ post.k = pre.k /\ post.al = pre.al /\ post.len = pre.len
   /\ SeqsOf(post) = SeqsOf(pre)
   /\ NoDup(NamesOf(post))
-  /\ size >= 0 => \A i \in 1..Len(post.rows) : Len(post.rows[i].n) = size
+  /\ (size >= 0 => \A i \in 1..Len(post.rows) : Len(post.rows[i].n) <= size)   \* "shorten to the given size"
   /\ map = {<<pre.rows[i].n, post.rows[i].n>> : i \in 1..Len(pre.rows)}
 
 \* ---- ordering, filtering ----------------------------------------------------
@@ -218,9 +218,12 @@ SetAlphabetOp(o, x) ==
 \* frame in {0,1,2}: each row replaced by its translation; frame -1: three rows per input row,
 \* named name_0, name_1, name_2.  Afterwards the alphabet is re-detected.
 FrameSuffix(nm, f) == nm \o <<UNDERSCORE, ZERO + f>>
+\* (an alignment re-derives its length from its first row even when the call fails early; that only
+\* matters for an alignment that is empty but still reports a length)
+TranslateFail(o) == Fail([o EXCEPT !.len = IF IsAlign(o) THEN RowLen(o) ELSE @])
 TranslateOp(o, frame, code) ==
-  IF ~ValidCode(code) THEN Fail(o)
-  ELSE IF o.al # NUCLEOTIDS THEN Fail(o)
+  IF ~ValidCode(code) THEN TranslateFail(o)
+  ELSE IF o.al # NUCLEOTIDS THEN TranslateFail(o)
   ELSE LET frames == IF frame = -1 THEN <<0, 1, 2>> ELSE <<frame>>
            bad == \E i \in 1..Len(o.rows) : \E f \in Range(frames) : TranslateErr(o.rows[i].s, f)
            rows == FlattenSeq([i \in 1..Len(o.rows) |->
